@@ -7,7 +7,10 @@ import (
 	"os"
 	"path/filepath"
 	"runtime/pprof"
+	"strconv"
+	"strings"
 	"sync"
+	"sync/atomic"
 	"time"
 )
 
@@ -27,9 +30,24 @@ type WorkerArgs struct {
 	Timeout          int
 	KeepSamples      int
 	Replay           bool
+	MaxRSSMB         int
 }
 
 const ExitWatchdog = 97
+const ExitMemory = 98
+
+func rssMB() int64 {
+	b, err := os.ReadFile("/proc/self/statm")
+	if err != nil {
+		return 0
+	}
+	f := strings.Fields(string(b))
+	if len(f) < 2 {
+		return 0
+	}
+	pages, _ := strconv.ParseInt(f[1], 10, 64)
+	return pages * int64(os.Getpagesize()) >> 20
+}
 
 // RunWorker executes cases Start, Start+Step, ... < End and journals each.
 func RunWorker(a WorkerArgs) int {
@@ -58,11 +76,31 @@ func RunWorker(a WorkerArgs) int {
 	if timeout <= 0 {
 		timeout = 60
 	}
+	// memory watchdog: a case that drives the process beyond the RSS bound is stopped and
+	// reported (unbounded recursion/allocation would otherwise take the machine down)
+	var curCase int64 = -1
+	go func() {
+		limit := int64(a.MaxRSSMB)
+		if limit <= 0 {
+			limit = 4096
+		}
+		for {
+			time.Sleep(250 * time.Millisecond)
+			if rss := rssMB(); rss > limit {
+				c := int(atomic.LoadInt64(&curCase))
+				put(jrec{T: "M", I: c})
+				fmt.Fprintf(os.Stderr, "\nfatal error: MEMORY WATCHDOG case %d: resident set %d MiB exceeds %d MiB\n", c, rss, limit)
+				_ = pprof.Lookup("goroutine").WriteTo(os.Stderr, 1)
+				os.Exit(ExitMemory)
+			}
+		}
+	}()
 	kept := 0
 	for i := a.Start; i < a.End; i += a.Step {
 		dir := filepath.Join(a.Scratch, fmt.Sprintf("case-%d", i))
 		_ = os.MkdirAll(dir, 0o755)
 		put(jrec{T: "B", I: i})
+		atomic.StoreInt64(&curCase, int64(i))
 		t0 := time.Now()
 		ci := i
 		timer := time.AfterFunc(time.Duration(timeout)*time.Second, func() {
